@@ -110,6 +110,34 @@ func (u *up14) ExchangeContext(ctx context.Context, m []byte) (*[]byte, error) {
 	}
 }
 
+// prior14: with probability 1/2 the query context already carries a response when the forward runs - what an earlier
+// step of a sequence left there (an earlier forward, a cache / hosts / black_hole step that did not accept).
+// It answers the same query (same id and question) and is recognisable: its origin (fromOf14) is 200..203, an origin
+// no harness upstream or server has. Returns the slot in the model's notation ("-" or "rcode:origin").
+func prior14(r *Run, q *dns.Msg, qCtx *query_context.Context) (*dns.Msg, string) {
+	if r.Rng.Intn(2) == 0 {
+		return nil, "-"
+	}
+	k := r.Rng.Intn(4)
+	rcode := []int{dns.RcodeSuccess, dns.RcodeSuccess, dns.RcodeServerFailure, dns.RcodeNameError}[k]
+	m := new(dns.Msg)
+	m.SetRcode(q, rcode)
+	if rcode == dns.RcodeSuccess {
+		m.Answer = append(m.Answer, &dns.A{Hdr: dns.RR_Header{Name: q.Question[0].Name, Rrtype: dns.TypeA, Class: 1, Ttl: 60}, A: net.IPv4(10, 0, 0, byte(200+k))})
+	} else {
+		m.Ns = append(m.Ns, &dns.TXT{Hdr: dns.RR_Header{Name: "from.", Rrtype: dns.TypeTXT, Class: 1, Ttl: 60}, Txt: []string{fmt.Sprint(200 + k)}})
+	}
+	qCtx.SetResponse(m)
+	return m, fmt.Sprintf("%d:%d", rcode, 200+k)
+}
+
+func slot14(m *dns.Msg) string {
+	if m == nil {
+		return "-"
+	}
+	return fmt.Sprintf("%d:%d", m.Rcode, fromOf14(m))
+}
+
 func fromOf14(r *dns.Msg) int {
 	if r == nil {
 		return -1
@@ -203,6 +231,7 @@ func runC14(r *Run) {
 			q.SetEdns0(1232, r.Rng.Intn(2) == 0)
 		}
 		qCtx := query_context.NewContext(q)
+		prior, priorStr := prior14(r, q, qCtx)
 		wantBytes, _ := qCtx.Q().Pack() // what the plugin is asked to forward
 		meter := startStallMeter()
 		ctx, cancel := context.WithCancel(context.Background())
@@ -240,7 +269,8 @@ func runC14(r *Run) {
 				cl.outcome = planned[i]
 			}
 		}
-		desc := map[string]any{"upstreams": n, "concurrent_setting": conc, "outcomes_in_arrival_order": strings.Join(planned, ","), "tag_subset": fmt.Sprint(subset), "call_number_on_this_forward_instance": sessCall}
+		desc := map[string]any{"upstreams": n, "concurrent_setting": conc, "outcomes_in_arrival_order": strings.Join(planned, ","), "tag_subset": fmt.Sprint(subset), "call_number_on_this_forward_instance": sessCall,
+			"response_already_in_the_context_before_the_call(rcode:origin)": priorStr}
 		if len(calls) != c {
 			desc["queried"] = len(calls)
 			r.Fail("the number of upstreams queried is not the concurrency clamped to 1..3", desc)
@@ -393,7 +423,15 @@ func runC14(r *Run) {
 			out = "errAll"
 		default:
 			rr := qCtx.R()
+			if rr == nil {
+				r.Fail("the call returned nil but the query context holds no response", desc)
+				rr = new(dns.Msg)
+			}
 			out = fmt.Sprintf("reply:%d:%d", rr.Rcode, fromOf14(rr))
+			if prior != nil && rr == prior {
+				desc["context_after_the_call(rcode:origin)"] = slot14(rr)
+				r.Fail("the call returned nil, but the query context still holds the response an earlier step had left there, not the reply the forward chose (the first NOERROR / NXDOMAIN to arrive, else the reply of the last exchange to finish whatever its rcode)", desc)
+			}
 			if rr.Id != q.Id {
 				r.Fail("the reply does not carry the id of the query", desc)
 			}
@@ -474,7 +512,7 @@ func runC14(r *Run) {
 			picked = append(picked, fmt.Sprint(p))
 		}
 		outM := out
-		r.Line(fmt.Sprintf("fwd %d %d %d %s", usedN, conc, rStart, strings.Join(evs, ",")), fmt.Sprintf("picked=%s out=%s", strings.Join(picked, "."), outM))
+		r.Line(fmt.Sprintf("fwdx %d %d %d %s %s", usedN, conc, rStart, strings.Join(evs, ","), priorStr), fmt.Sprintf("picked=%s out=%s ctx=%s", strings.Join(picked, "."), outM, slot14(qCtx.R())))
 		r.Eval(fmt.Sprintf("fwd/%d", ci), c > 1)
 		r.Count(fmt.Sprintf("concurrency:%d", c))
 		r.Count("result:" + strings.SplitN(out, ":", 2)[0])
@@ -482,7 +520,7 @@ func runC14(r *Run) {
 	}
 	runC14Configured(r)
 	runC14Faults(r)
-	r.Finish("upstream lists of 1..5 in-memory upstreams (all, or a random tag subset in random order) x concurrent in {-2, 0, 1, 2, 3, 4, 7} x per-helper outcome {NOERROR, NXDOMAIN, SERVFAIL, REFUSED, error, unparsable bytes, never answers} in a scripted arrival order x context cancellation before any arrival / between arrivals / after all, 1..4 consecutive calls on one Forward instance; released pool buffers are overwritten; plus forwards built by NewForward / Init from decoded plugin arguments: 1..4 entries leading to 4 loopback servers (UDP, TCP, SOCKS5; distinguishable answers, every received query recorded) through their own addr, through dial_addr / socks5 under an addr shared with other entries, or through the plugin-wide socks5, all entries or a tag subset: the multiset of servers that received each query must be that of c cyclically consecutive configured positions, and the reply must be a legitimate one among the contacted servers' answers; plus fault sequences on one configured forward (stream upstreams tcp / tcp+pipeline / socks5 with max_conns 0..3, idle_timeout, tags and tag subsets): sessions of healthy queries, outages (servers hang up on every query or refuse every connection, so that exchanges fail) and recoveries, repeated: during an outage the outcome must be one the statement allows for some start position, after it every query must again reach c cyclically consecutive configured positions and be answered by one of them")
+	r.Finish("upstream lists of 1..5 in-memory upstreams (all, or a random tag subset in random order) x concurrent in {-2, 0, 1, 2, 3, 4, 7} x per-helper outcome {NOERROR, NXDOMAIN, SERVFAIL, REFUSED, error, unparsable bytes, never answers} in a scripted arrival order x context cancellation before any arrival / between arrivals / after all, 1..4 consecutive calls on one Forward instance, on a fresh query context or on one that already carries a recognisable response of an earlier step (NOERROR / SERVFAIL / NXDOMAIN; in all three scenario families): after a call that returns nil the context must hold the forward's chosen reply, compared with the model (Exec as the regenerated fact describes it); released pool buffers are overwritten; plus forwards built by NewForward / Init from decoded plugin arguments: 1..4 entries leading to 4 loopback servers (UDP, TCP, SOCKS5; distinguishable answers, every received query recorded) through their own addr, through dial_addr / socks5 under an addr shared with other entries, or through the plugin-wide socks5, all entries or a tag subset: the multiset of servers that received each query must be that of c cyclically consecutive configured positions, and the reply must be a legitimate one among the contacted servers' answers; plus fault sequences on one configured forward (stream upstreams tcp / tcp+pipeline / socks5 with max_conns 0..3, idle_timeout, tags and tag subsets): sessions of healthy queries, outages (servers hang up on every query or refuse every connection, so that exchanges fail) and recoveries, repeated: during an outage the outcome must be one the statement allows for some start position, after it every query must again reach c cyclically consecutive configured positions and be answered by one of them")
 }
 
 func poison01c14() func() {
